@@ -194,6 +194,7 @@ func init() {
 		wireCppBeName(wc, r, "C01", []string{"enc"}, 1<<kBasic|1<<kLength|1<<kCheckSum)
 		wirePaddingSiblings(wc, r, "C01")
 		wirePaddingOutcomes(wc, r, "C01")
+		wireOneByteEndian(w, wc, r, "C01")
 		wireAssumptions(r)
 	})
 	register("C02", "Sensitivity of the decode emitters (as C01, for decoders) plus encode/decode symmetry per language: for each cell the decoder's dependence set must include every wire-determining input its own encoder depends on - a decoder that ignores an option its encoder honours cannot invert it. "+
@@ -230,6 +231,7 @@ func init() {
 		"That the patched number equals the byte count (slice bounds, literal widths, which marker variables are subtracted) is a property of the emitted text and is not decided.", func(w *World, r *Report) {
 		wc := buildWire(w, r)
 		wireLength(w, wc, r)
+		wireOneByteEndian(w, wc, r, "C04")
 		wireAssumptions(r)
 	})
 	register("C05", "Match dispatch: (expansion) every matchPair child and every key of a key list yields one pair, in source order, with the pair's packet; (table) each language's dispatch emitter ranges over the pair list and emits text depending on both the key and the packet of the loop element; "+
@@ -256,6 +258,7 @@ func init() {
 		wireCppBeName(wc, r, "C06", []string{"enc", "dec"}, 1<<kCheckSum)
 		wireRawType(w, r, "C06", "CheckSumFieldAttribute.Type")
 		wireOrder(wc, r, "C06", "enc")
+		wireOneByteEndian(w, wc, r, "C06")
 		wireAssumptions(r)
 	})
 	register("C15", "Lua dissector, decided part: the dissector emitters depend on the list/string prefix types, the scalar type and the byte order for every cell; every emission that takes a size from a source (fixed length, scalar table Size, prefix table Size) takes the range and the advance from the same source; the scalar table agrees with the other languages. "+
